@@ -187,5 +187,24 @@ PROPS["C10"] = {
     "trusted_base": NET_TRUST,
 }
 
+PROPS["C08"] = {
+    "engine": "net", "properties_file": "Properties/C08.v", "env": {"TZ": "UTC"}, "race": True,
+    "model_files": ["Model/Driver.v", "Model/Cases08.v"],
+    "technique": "Coq: timed model of the fixed-bind-port lock/deadline protocol, own-reply theorem for any number of calls in any service order (refuted for the pre-repair policy); real driver against a loopback controller farm whose reply is a function of the request; Go race detector run",
+    "level_text": "PARTIAL. Proved on the timed model (mutex serving order arbitrary; deadline after the lock; a datagram addressed to the port goes to whoever holds it): every call whose controller answers within T of the request being sent returns its own reply, for any number of calls, however long each waited for the port; the pre-repair policy (deadline before the lock) is refuted by a three-call witness. Tie: the real ut0311 driver against a loopback UDP/TCP controller farm that echoes the request's index, 2-8 (thorough up to 24) goroutines per scenario on one client, mixed broadcast / connected-UDP / TCP paths, bind port 0 and a fixed bind port, reply delays 0..185 ms with T = 300 ms; outcome per call (own / crossed / time-out) compared with the model in the order in which the farm saw the requests; a failing scenario is re-run and reported only if it fails twice. The same load plus discovery while replies are arriving and listener start/stop cycles runs in a child process built with -race; any report with a frame inside the library is a violation.",
+    "level_note": "Not a theorem: memory-level interleavings of the real binary, goroutine scheduling, kernel UDP queues (exercised, not proved); the lock-set discipline of the source is checked by the race detector only (the planned skeleton extractor was not built). Replies that arrive after their call has given up are delivered to the next holder of a shared port - inherent to the protocol, modelled, and outside what the property quantifies over (delays below the timeout). F9 (race on the reply list in Broadcast) and F10 (deadline taken before the lock) were found by this check and repaired.",
+    "rule": "scenarios alternate fixed / port-0; non-trivial = every scenario (>= 2 concurrent calls); distinct = distinct Coq case terms; call totals and the race-detector summary under coverage.extra.",
+    "trusted_base": NET_TRUST,
+}
+PROPS["C09"] = {
+    "engine": "net", "properties_file": "Properties/C09.v", "env": {"TZ": "UTC"},
+    "model_files": ["Model/Driver.v", "Model/Cases08.v"],
+    "technique": "Coq: bounds on hold / return times in the timed lock model for arbitrary arrivals, resource footprint balance by induction; real driver against fault behaviours with wall-clock, /proc/self/fd and goroutine accounting",
+    "level_text": "PARTIAL. Proved on the timed model: whatever arrives (replies, strays, a flood, nothing) a call returns no later than its deadline, and if it fails for lack of an acceptable datagram exactly at its deadline; with the deadline after the lock each call holds a shared port for at most T; a reply before the deadline is accepted; the socket/goroutine footprint of any sequence of driver calls is balanced. Tie: the real driver against the farm's behaviours {no reply, late reply, stray flood until the deadline, TCP accept-and-stall, TCP refused, ICMP refused, reply in time, reply 70 ms before the deadline} on the three paths with bind port 0 and fixed, wall-clock duration of every call judged against T = 300 ms (+150 ms slack, -5 ms), and the number of socket descriptors in /proc/self/fd and of goroutines compared before and after all calls (GC disabled so that no finalizer closes a forgotten socket).",
+    "level_note": "Wall-clock bounds and descriptor release are observed, not proved; timing verdicts use generous margins and a failing call is retried (stale datagrams drained first). Trusted: as C08.",
+    "rule": "13 fault cases x rounds + batches of 6 concurrent calls and a discovery; non-trivial = all; distinct = distinct Coq case terms (durations included).",
+    "trusted_base": NET_TRUST,
+}
+
 DEV = {"API": {"engine": "api", "properties_file": "Properties/C12.v", "model_files": [], "env": {"TZ": "UTC"}}}
 NOT_YET = {}
